@@ -171,6 +171,7 @@ _APPROX = {
     'LOG': lambda x, b: math.log(x) / math.log(b),
     'ATAN2': lambda x, y: math.atan2(y, x),
     'FACT': lambda x: float(math.factorial(int(x))),
+    'FACTDOUBLE': lambda x: float(math.prod(range(int(x), 0, -2))),
 }
 
 
